@@ -26,6 +26,9 @@ def reader_population(n, seed, ndims=(2, 3), payloads=("random", "special", "ext
                  base_blocks=(1, 3) if bf >= 4 else (2, 5))
         if rng.random() < 0.3:
             g["nfiles"] = rng.choice([1, 2, 7])
+        if i % 16 == 13:      # scale: 100+ one-cell boxes at level 0, all in one file / spread over 40 files
+            g.update(bf=1, maxsz=1, base_blocks=(10, 12) if nd == 2 else (5, 5), nlevels=min(nl, 2),
+                     nfiles=[1, 40][(i // 16) % 2], nfields=min(g["nfields"], 3))
         if i % 16 == 9 and max_fields >= 8:      # as many fields as real output has; 3-digit component counts
             g["nfields"] = [38, 101][(i // 16) % 2]
         f = dict(ref_ratio_extra=rng.choice([0, 0, 1, 3]), trailing_blank=rng.random() < 0.7,
